@@ -42,8 +42,8 @@ def stop_workers():
     _workers.clear()
 
 
-def ask(p, text):
-    p.stdin.write(json.dumps({'text': text}) + '\n')
+def ask(p, text, debug_filename=False):
+    p.stdin.write(json.dumps({'text': text, 'debug_filename': debug_filename}) + '\n')
     p.stdin.flush()
     r = p.stdout.readline().strip()
     if not r:
@@ -51,9 +51,24 @@ def ask(p, text):
     return r
 
 
-def local(text, debug=False):
-    class Ctx(impl.Ctx):
+def local(text, debug=False, debug_filename=False, from_file=False):
+    class Ctx(impl.compiler.CompilerContext):       # options as a user would make them: derived from the library's class
         pass
+    if debug_filename:
+        Ctx.debug_filename = True
+    if from_file:
+        import tempfile
+        fd, path = tempfile.mkstemp(prefix='verif-c18-', suffix='.prolog')
+        try:
+            with os.fdopen(fd, 'w', encoding='utf8', newline='') as f:
+                f.write(text)
+            try:
+                code = impl.compiler.compile_prolog_from_file(path)          # default options, as a user would
+                return hashlib.sha256(code.encode('utf8', 'backslashreplace')).hexdigest()
+            except BaseException as e:      # noqa
+                return 'EXC:' + type(e).__name__
+        finally:
+            os.unlink(path)
     if debug:
         Ctx.debug_parser = True
         Ctx.debug_generator = True
@@ -73,7 +88,8 @@ class C18(Prop):
     rule = ('program A (several predicates, many fresh variables per clause, _, several if-then-else / negation labels), '
             'a program B derived from A (A\'s clauses behind an extra if-then-else clause, reversed, or a subset - the same '
             'clause text at another label / variable offset), and an unrelated program C (sometimes malformed, sometimes '
-            'compiled with all debug options). In-process order: A, B, C, A. Oracles: the second compilation of A is '
+            'compiled with all debug options, sometimes failing inside the clause compiler, sometimes compiled from a '
+            'file with default options). In-process order: A, B, C, A, A with debug_filename. Oracles: the second compilation of A is '
             'byte-identical to the first; six persistent worker processes started with PYTHONHASHSEED 0, 1, 2, 3, 4242 and '
             'random, each with a DIFFERENT compilation history (even workers are only ever asked for A-texts, odd ones for '
             'B-texts), return the same SHA-256 as the in-process compilations of A and of B. Once per run: every .prolog '
@@ -103,7 +119,13 @@ class C18(Prop):
             a = a_plain          # identical clause text in A and B (layout included)
         p2, c2 = gen.gen_program(src, CFG)
         c = gen.program_text(c2)
-        cmode = src.pick(['ok', 'ok', 'malformed', 'debug', 'too-large'])
+        cmode = src.pick(['ok', 'ok', 'malformed', 'debug', 'too-large', 'internal-error', 'from-file'])
+        if cmode == 'internal-error':
+            # fails INSIDE the clause compiler (name/arity term, numeral as functor name), using A's variable names
+            import re
+            names = [n for n in dict.fromkeys(re.findall(r"(?<![A-Za-z0-9_'])[A-Z_][A-Za-z0-9_]*", a)) if n != '_'] + ['V0', 'V1', 'V2', 'V3']
+            nm = (names * 4)[:4] if src.n(4) else ['V0', 'V1', 'V2', 'V3']
+            c += src.pick(['k(%s) :- %s = [app/3, %s], q(%s).\n', 'k(%s, %s) :- q(%s), r(1(%s)).\n', 'k(%s) :- %s = [a/1|%s], q(%s).\n']) % tuple(nm)
         if cmode == 'malformed':
             c += 'oops( .\n'
         elif cmode == 'too-large':
@@ -127,12 +149,16 @@ class C18(Prop):
         a, b, c = case['a'], case['b'], case['c']
         h_a1 = local(a)
         h_b = local(b)
-        local(c, debug=(case['cmode'] == 'debug'))
+        local(c, debug=(case['cmode'] == 'debug'), from_file=(case['cmode'] == 'from-file'))
         h_a2 = local(a)
+        h_a3 = local(a, debug_filename=True)
         detail = {'A': a, 'B': b, 'C_mode': case['cmode']}
         if h_a1 != h_a2:
             return FAIL('same-process:second-compilation-differs', dict(detail, first=h_a1[:16], second=h_a2[:16]))
         ws = workers()
+        r = ask(ws[0], a, debug_filename=True)
+        if r != h_a3:
+            return FAIL('other-process-differs:A-with-debug_filename', dict(detail, in_process=h_a3[:16], worker=r[:16]))
         for i, p in enumerate(ws):
             text, h, which = (a, h_a1, 'A') if i % 2 == 0 else (b, h_b, 'B')
             r = ask(p, text)
